@@ -14,7 +14,7 @@ REQUIRED = [
     for n in """scaleOK edges_equally_spaced vertex_ends grid_hz_strictMono
     tri_rejects_iff fbank_rejects_iff gabor_rejects_iff gammatone_rejects_iff
     tri_range_rejected fbank_range_rejected gabor_range_rejected gammatone_range_rejected
-    tri_layout fbank_layout gabor_layout gammatone_layout
+    fbank_accepted_lt tri_layout fbank_layout gabor_layout gammatone_layout
     tri_centers_strictMono fbank_centers_strictMono gabor_centers_strictMono gammatone_centers_strictMono
     tri_center_mem_support fbank_center_mem_support gabor_center_mem_support gammatone_center_mem_support
     tri_peak fbank_peak loop_range bins_generic bins_doc tri_is_triangle fbank_is_sqrt_mel_triangle tri_vertices_valid
@@ -43,8 +43,9 @@ TRUSTED = [
 ]
 ASSUMPTIONS = [
     "scale domain: linear slope > 0, octave low_hz > 0 (octave with low_hz = 0 gives -inf: outside the property), mel low > -700, Bark low > -1960",
-    "layout theorems need low_hz < effective high_hz: Fbank / Gabor / gammatone do not compare low_hz with the default high_hz = sampling_rate // 2 "
-    "and accept high_hz = 0 (falsy): such inputs are neither required to be rejected by the property nor valid; counted out_of_scope",
+    "layout theorems need low_hz < effective high_hz: Gabor / gammatone do not compare low_hz with the default high_hz = sampling_rate // 2 "
+    "and accept high_hz = 0 (falsy): such inputs are neither required to be rejected by the property nor valid; counted out_of_scope "
+    "(Fbank, since its repair, fills the default first and rejects both: fbank_rejects_iff / fbank_accepted_lt)",
     "Fbank / Gabor / gammatone reject a valid high_hz in (floor(rate/2), rate/2] (only for odd / fractional rates) and default to "
     "floor(rate/2), not rate/2: recorded in the histogram (valid_range_rejected), not a violation of the property as stated",
     "gammatone_erb_partial: the identity integral (1+v^2)^(-n) dv = pi (2n-2)! / (2^(2n-2) ((n-1)!)^2) is a hypothesis of the theorem "
